@@ -1068,20 +1068,22 @@ func advPairing(r *vcore.Run) {
 	fr := bn254.ID.ScalarField()
 	fp := bn254.ID.BaseField()
 	a, b := randNonzero(rng, fr), randNonzero(rng, fr)
-	mkPts := func(second *big.Int) ([3]bn254.G1Affine, [3]bn254.G2Affine) {
-		var P [3]bn254.G1Affine
-		var Q [3]bn254.G2Affine
+	mkPts := func(second *big.Int) ([maxPairs]bn254.G1Affine, [maxPairs]bn254.G2Affine) {
+		var P [maxPairs]bn254.G1Affine
+		var Q [maxPairs]bn254.G2Affine
 		P[0].ScalarMultiplication(&g1, a)
 		Q[0].ScalarMultiplication(&g2, b)
 		P[1].ScalarMultiplication(&g1, second)
 		Q[1] = g2
-		P[2], Q[2] = g1, g2
+		for i := 2; i < maxPairs; i++ {
+			P[i], Q[i] = g1, g2
+		}
 		return P, Q
 	}
 	ab := new(big.Int).Mul(a, b)
 	trueSecond := new(big.Int).Mod(new(big.Int).Neg(ab), fr)
 	falseSecond := new(big.Int).Mod(new(big.Int).Add(trueSecond, bi(1)), fr)
-	coords := func(P [3]bn254.G1Affine, Q [3]bn254.G2Affine) []*big.Int {
+	coords := func(P [maxPairs]bn254.G1Affine, Q [maxPairs]bn254.G2Affine) []*big.Int {
 		var v []*big.Int
 		for i := 0; i < 2; i++ {
 			v = append(v, P[i].X.BigInt(new(big.Int)), P[i].Y.BigInt(new(big.Int)))
